@@ -1,28 +1,13 @@
-(* Stages B-D, part 1: Compiler.compile_program on programs over top-level variables emits exactly [pcode]: global
-   slots in declaration order, one block table per branch / loop / loop body (however deeply nested), jumps,
-   the PopTop / Nil glue between statements.  The symbol tables are described by an invariant: the root table maps the
-   variables declared so far to the global slots 0, 1, 2 ...; every other table is an empty block table whose parent
-   is an earlier table, so every name resolves, through any chain of blocks, to its global slot. *)
+(* Stages B-E, part 1: Compiler.compile_program on programs over variables emits exactly [pcode]: one global slot per
+   declaration in program-text order (whatever block it is in), one block table per branch / loop / loop body, jumps, the
+   placeholders of break / continue patched by the enclosing loop, the PopTop / Nil glue between statements.
+   The symbol tables are described by an invariant ([chain]): from the current table up to the root every table is an
+   open block that knows exactly the variables declared in it so far, each bound to its global slot; so every visible
+   name resolves, through any chain of blocks, to its slot, and a variable whose block has ended is no longer found. *)
 From Coq Require Import List ZArith NArith Bool Arith Lia.
 Require Import RV.model.Syntax RV.model.Compiler RV.model.ScalarFrag RV.model.VarProg RV.proofs.BackendProofs RV.proofs.VarProgFacts.
 Import ListNotations.
 Local Open Scope nat_scope.
-
-(* insert_symbol into table 0 when that is a non-block table that does not know the name yet *)
-Lemma insert_root (tb : table) rest name c stk fi :
-  tb_block tb = false -> Compiler.assoc name (tb_byname tb) = None ->
-  insert_symbol 0 name c {| st_tabs := tb :: rest; st_stack := stk; st_funcindex := fi |} =
-  inr ({| sy_name := name; sy_index := N.of_nat (length (tb_syms tb)); sy_const := c |},
-       {| st_tabs := {| tb_id := tb_id tb; tb_parent := tb_parent tb; tb_nchildren := tb_nchildren tb;
-                        tb_byname := (name, {| sy_name := name; sy_index := N.of_nat (length (tb_syms tb)); sy_const := c |}) :: tb_byname tb;
-                        tb_freebyname := tb_freebyname tb;
-                        tb_syms := tb_syms tb ++ [ {| sy_name := name; sy_index := N.of_nat (length (tb_syms tb)); sy_const := c |} ];
-                        tb_free := tb_free tb; tb_block := tb_block tb |} :: rest;
-          st_stack := stk; st_funcindex := fi |}).
-Proof.
-  destruct tb as [tid tpar tnc tby tfb tsy tfr tbl]. cbn [tb_block tb_byname]. intros -> Ha.
-  unfold insert_symbol, bind, get_tab, get, set_tab, ret. cbn. rewrite Ha. cbn. reflexivity.
-Qed.
 
 Lemma nth_cset_same (A : Type) (l : list A) i v d : i < length l -> nth i (Compiler.list_set l i v) d = v.
 Proof. revert i; induction l as [|x l IH]; intros [|i] H; cbn in *; try lia; [reflexivity|apply IH; lia]. Qed.
@@ -30,9 +15,6 @@ Lemma nth_cset_other (A : Type) (l : list A) i j v d : i <> j -> nth j (Compiler
 Proof. revert i j; induction l as [|x l IH]; intros [|i] [|j] H; cbn; try reflexivity; try lia. apply IH. lia. Qed.
 Lemma length_cset (A : Type) (l : list A) i v : length (Compiler.list_set l i v) = length l.
 Proof. revert i; induction l as [|x l IH]; intros [|i]; cbn; auto. Qed.
-
-Lemma patch_I l : forall off a b, patch off a b (I l) = I l.
-Proof. induction l as [|x l IH]; intros off a b; [reflexivity|]. cbn [I map patch]. f_equal. apply IH. Qed.
 
 Section Names.
   Variable names : list (list N).
@@ -46,29 +28,33 @@ Section Names.
   Definition mkst (tabs : list table) (t : nat) (ks : list konst) (loops : list (bool * nat)) : cstate :=
     {| st_tabs := tabs; st_stack := [mw t ks loops]; st_funcindex := 0 |}.
 
-  Definition root_names (n : nat) : list (list N * symbol) := map (fun i => (nth i names [], sym_of names i)) (rev (seq 0 n)).
-  (* a block table: empty, hanging under an earlier table *)
-  Definition blk_ok (j : nat) (tb : table) : Prop :=
-    tb_byname tb = [] /\ tb_freebyname tb = [] /\ exists p, tb_parent tb = Some p /\ p < j.
-  Definition tabs_good (n : nat) (tabs : list table) : Prop :=
-    0 < length tabs /\
-    tb_parent (nth 0 tabs dummy_table) = None /\ tb_block (nth 0 tabs dummy_table) = false /\
-    tb_byname (nth 0 tabs dummy_table) = root_names n /\
-    tb_syms (nth 0 tabs dummy_table) = map (sym_of names) (seq 0 n) /\
-    forall j, 0 < j < length tabs -> blk_ok j (nth j tabs dummy_table).
-  (* tables are only ever added; the parent links of the existing ones stay *)
-  Definition ext (tabs tabs' : list table) : Prop :=
-    length tabs <= length tabs' /\
-    forall j, j < length tabs -> tb_parent (nth j tabs' dummy_table) = tb_parent (nth j tabs dummy_table).
-  Lemma ext_refl tabs : ext tabs tabs.
-  Proof. split; [lia|reflexivity]. Qed.
-  Lemma ext_trans a b c : ext a b -> ext b c -> ext a c.
-  Proof. intros [H1 H2] [H3 H4]. split; [lia|]. intros j Hj. rewrite H4 by lia. apply H2. exact Hj. Qed.
+  (* the symbol of global slot sl, and the by-name list of a table in which the slots l were declared (newest first) *)
+  Definition sym (sl : nat) : symbol := {| sy_name := nth sl names []; sy_index := N.of_nat sl; sy_const := false |}.
+  Definition binds (l : list nat) : list (list N * symbol) := map (fun sl => (nth sl names [], sym sl)) (rev l).
 
-  Lemma init_is_mkst : init_state [] = mkst (st_tabs (init_state [])) 0 [] [].
-  Proof. reflexivity. Qed.
-  Lemma init_tabs_good : tabs_good 0 (st_tabs (init_state [])).
-  Proof. unfold tabs_good. cbn. repeat split; try lia. Qed.
+  (* the open tables from the current one to the root, each with the slots declared in it *)
+  Inductive chain (tabs : list table) : list (nat * list nat) -> Prop :=
+  | chain_root l :
+      0 < length tabs ->
+      tb_parent (nth 0 tabs dummy_table) = None -> tb_block (nth 0 tabs dummy_table) = false ->
+      tb_byname (nth 0 tabs dummy_table) = binds l -> tb_freebyname (nth 0 tabs dummy_table) = [] ->
+      chain tabs [(0, l)]
+  | chain_blk t l p lp rest :
+      0 < t -> t < length tabs -> p < t ->
+      tb_parent (nth t tabs dummy_table) = Some p -> tb_block (nth t tabs dummy_table) = true ->
+      tb_byname (nth t tabs dummy_table) = binds l -> tb_freebyname (nth t tabs dummy_table) = [] ->
+      chain tabs ((p, lp) :: rest) ->
+      chain tabs ((t, l) :: (p, lp) :: rest).
+  (* the visible slots, in declaration order *)
+  Definition flat (ch : list (nat * list nat)) : list nat := concat (rev (map snd ch)).
+  (* the invariant: the chain, k symbols in all (they all live in the root table), every visible slot below k *)
+  Definition cinv (k : nat) (tabs : list table) (ch : list (nat * list nat)) : Prop :=
+    chain tabs ch /\ length (tb_syms (nth 0 tabs dummy_table)) = k /\ Forall (fun sl => sl < k) (flat ch) /\ k <= length names.
+
+  Lemma flat_cons t l rest : flat ((t, l) :: rest) = flat rest ++ l.
+  Proof. unfold flat. cbn [map snd rev]. rewrite concat_app. cbn [concat]. rewrite app_nil_r. reflexivity. Qed.
+  Lemma flat_decl t l rest k : flat ((t, l ++ [k]) :: rest) = flat ((t, l) :: rest) ++ [k].
+  Proof. rewrite !flat_cons, app_assoc. reflexivity. Qed.
 
   Lemma beq_refl (a : list N) : Compiler.beq a a = true.
   Proof. unfold Compiler.beq. destruct (list_eq_dec N.eq_dec a a); [reflexivity|contradiction]. Qed.
@@ -77,144 +63,264 @@ Section Names.
   Lemma names_distinct i j : i < length names -> j < length names -> i <> j -> nth i names [] <> nth j names [].
   Proof. intros Hi Hj Hne Heq. apply Hne. exact (proj1 (NoDup_nth names []) names_nodup i j Hi Hj Heq). Qed.
 
-  Lemma root_names_S n : root_names (S n) = (nth n names [], sym_of names n) :: root_names n.
-  Proof. unfold root_names. rewrite seq_S, rev_app_distr. reflexivity. Qed.
-  Lemma byname_lookup n : n <= length names -> forall i, i < n ->
-    Compiler.assoc (nth i names []) (root_names n) = Some (sym_of names i).
+  (* looking a slot's name up in a by-name list *)
+  Lemma assoc_slots sl : sl < length names -> forall m, Forall (fun x => x < length names) m ->
+    Compiler.assoc (nth sl names []) (map (fun x => (nth x names [], sym x)) m) =
+    if in_dec Nat.eq_dec sl m then Some (sym sl) else None.
   Proof.
-    induction n as [|n IH]; intros Hn i Hi; [lia|].
-    rewrite root_names_S. cbn [Compiler.assoc].
-    destruct (Nat.eq_dec i n) as [->|Hne].
-    - rewrite beq_refl. reflexivity.
-    - rewrite beq_neq by (apply names_distinct; lia). apply (IH ltac:(lia) i ltac:(lia)).
+    intros Hsl. induction m as [|x m IH]; intros Hm; [reflexivity|].
+    inversion Hm as [|? ? Hx Hm']; subst. cbn [map Compiler.assoc].
+    destruct (Nat.eq_dec sl x) as [->|Hne].
+    - rewrite beq_refl. destruct (in_dec Nat.eq_dec x (x :: m)) as [_|Hn]; [reflexivity|exfalso; apply Hn; left; reflexivity].
+    - rewrite beq_neq by (apply names_distinct; assumption). rewrite (IH Hm').
+      destruct (in_dec Nat.eq_dec sl m) as [Hin|Hn]; destruct (in_dec Nat.eq_dec sl (x :: m)) as [Hin2|Hn2]; try reflexivity.
+      + exfalso. apply Hn2. right. exact Hin.
+      + exfalso. destruct Hin2 as [->|Hin2]; [apply Hne; reflexivity|apply Hn; exact Hin2].
   Qed.
-  Lemma byname_fresh n : n < length names -> Compiler.assoc (nth n names []) (root_names n) = None.
+  Lemma assoc_binds sl l : sl < length names -> Forall (fun x => x < length names) l ->
+    Compiler.assoc (nth sl names []) (binds l) = if in_dec Nat.eq_dec sl l then Some (sym sl) else None.
   Proof.
-    intros Hn.
-    assert (H : forall k, k <= n -> Compiler.assoc (nth n names []) (root_names k) = None).
-    { induction k as [|k IH]; intros Hk; [reflexivity|].
-      rewrite root_names_S. cbn [Compiler.assoc].
-      rewrite beq_neq by (apply names_distinct; lia). apply IH. lia. }
-    apply H. lia.
+    intros Hsl Hl. unfold binds. rewrite (assoc_slots sl Hsl (rev l)) by (apply Forall_rev; exact Hl).
+    destruct (in_dec Nat.eq_dec sl (rev l)) as [H|H]; destruct (in_dec Nat.eq_dec sl l) as [H2|H2]; try reflexivity.
+    - exfalso. apply H2. apply in_rev. exact H.
+    - exfalso. apply H. apply in_rev in H2. exact H2.
   Qed.
+
+  (* ---------------------------------------------------------------- facts about chains *)
+  Lemma chain_head_lt tabs t l rest : chain tabs ((t, l) :: rest) -> t < length tabs.
+  Proof. intros H. inversion H; subst; assumption. Qed.
+
+  (* only four fields of the tables at indices up to the current one matter *)
+  Definition same_fields (a b : table) : Prop :=
+    tb_parent a = tb_parent b /\ tb_block a = tb_block b /\ tb_byname a = tb_byname b /\ tb_freebyname a = tb_freebyname b.
+  Lemma chain_mono tabs tabs' : length tabs <= length tabs' -> forall ch t l rest, ch = (t, l) :: rest ->
+    (forall j, j <= t -> same_fields (nth j tabs' dummy_table) (nth j tabs dummy_table)) ->
+    chain tabs ch -> chain tabs' ch.
+  Proof.
+    intros Hlen ch t l rest Hch Hsame H. revert t l rest Hch Hsame.
+    induction H as [l0 H0 H1 H2 H3 H4|t0 l0 p lp rest0 Ht0 Ht1 Hp Hpar Hblk Hby Hfb Hrest IH]; intros t l rest Hch Hsame; inversion Hch; subst.
+    - destruct (Hsame 0 (le_n _)) as [E1 [E2 [E3 E4]]].
+      apply chain_root; [lia|rewrite E1; exact H1|rewrite E2; exact H2|rewrite E3; exact H3|rewrite E4; exact H4].
+    - destruct (Hsame t (le_n _)) as [E1 [E2 [E3 E4]]].
+      apply chain_blk; try assumption; try lia; [rewrite E1; exact Hpar|rewrite E2; exact Hblk|rewrite E3; exact Hby|rewrite E4; exact Hfb|].
+      apply (IH p lp rest0 eq_refl). intros j Hj. apply Hsame. lia.
+  Qed.
+
+  Lemma chain_is_global tabs ch : chain tabs ch -> forall t l rest fuel, ch = (t, l) :: rest -> is_global fuel tabs t = true.
+  Proof.
+    intros H. induction H as [l0 H0 H1 H2 H3 H4|t0 l0 p lp rest0 Ht0 Ht1 Hp Hpar Hblk Hby Hfb Hrest IH]; intros t l rest fuel Hch; inversion Hch; subst.
+    - destruct fuel; [reflexivity|]. cbn [is_global]. rewrite H1. reflexivity.
+    - destruct fuel; [reflexivity|]. cbn [is_global]. rewrite Hpar, Hblk. exact (IH p lp rest0 fuel eq_refl).
+  Qed.
+
+  Lemma chain_len tabs ch : chain tabs ch -> forall t l rest, ch = (t, l) :: rest -> length ch <= S t.
+  Proof.
+    intros H. induction H as [l0 H0 H1 H2 H3 H4|t0 l0 p lp rest0 Ht0 Ht1 Hp Hpar Hblk Hby Hfb Hrest IH]; intros t l rest Hch; inversion Hch; subst.
+    - cbn. lia.
+    - pose proof (IH p lp rest0 eq_refl). cbn [length] in *. lia.
+  Qed.
+
+  Lemma chain_owner tabs ch : chain tabs ch -> forall t l rest fuel, ch = (t, l) :: rest -> length ch <= fuel -> owner fuel tabs t = 0.
+  Proof.
+    intros H. induction H as [l0 H0 H1 H2 H3 H4|t0 l0 p lp rest0 Ht0 Ht1 Hp Hpar Hblk Hby Hfb Hrest IH]; intros t l rest fuel Hch Hf; inversion Hch; subst.
+    - destruct fuel; [reflexivity|]. cbn [owner]. rewrite H2. reflexivity.
+    - destruct fuel; [cbn in Hf; lia|]. cbn [owner]. rewrite Hblk, Hpar. apply (IH p lp rest0 fuel eq_refl). cbn [length] in *. lia.
+  Qed.
+
+  Lemma chain_tail tabs t l p lp rest : chain tabs ((t, l) :: (p, lp) :: rest) ->
+    tb_parent (nth t tabs dummy_table) = Some p /\ chain tabs ((p, lp) :: rest).
+  Proof. intros H. inversion H; subst. split; assumption. Qed.
 
   (* ---------------------------------------------------------------- resolution through a chain of blocks *)
-  Lemma resolve_up_chain n tabs t active d i : tabs_good n tabs -> n <= length names -> i < n ->
-    forall an fuel, an < fuel -> an < length tabs ->
-    resolve_up fuel tabs t active d (nth i names []) (Some an) = Some (sym_of names i, Global, 0).
+  Lemma resolve_up_chain tabs t0 active d sl : sl < length names ->
+    forall ch, chain tabs ch -> Forall (fun x => x < length names) (flat ch) -> In sl (flat ch) ->
+    forall an l rest fuel, ch = (an, l) :: rest -> length ch <= fuel ->
+    resolve_up fuel tabs t0 active d (nth sl names []) (Some an) = Some (sym sl, Global, 0).
   Proof.
-    intros [Hlen [Hrp [Hrb [Hby [Hsy Hblk]]]]] Hn Hi.
-    induction an as [an IH] using lt_wf_ind. intros fuel Hf Han.
-    destruct fuel as [|f]; [lia|]. cbn [resolve_up].
-    destruct (Nat.eq_dec an 0) as [->|Hnz].
-    - rewrite Hby, (byname_lookup n Hn i Hi). cbn [is_global]. rewrite Hrp. reflexivity.
-    - destruct (Hblk an ltac:(lia)) as [Hb [_ [p [Hp Hlt]]]]. rewrite Hb. cbn [Compiler.assoc]. rewrite Hp.
-      apply IH; lia.
+    intros Hsl ch H. induction H as [l0 H0 H1 H2 H3 H4|t1 l0 p lp rest0 Ht0 Ht1 Hp Hpar Hblk Hby Hfb Hrest IH];
+      intros Hb Hin an l rest fuel Hch Hf; inversion Hch; subst; (destruct fuel as [|f]; [cbn in Hf; lia|]); cbn [resolve_up].
+    - rewrite flat_cons in Hb, Hin. cbn [flat map rev concat app] in Hb, Hin.
+      rewrite H3, (assoc_binds sl l Hsl Hb).
+      destruct (in_dec Nat.eq_dec sl l) as [_|Hn]; [|contradiction].
+      rewrite (chain_is_global tabs _ (chain_root tabs l H0 H1 H2 H3 H4) 0 l [] _ eq_refl). reflexivity.
+    - rewrite flat_cons in Hb, Hin. apply Forall_app in Hb. destruct Hb as [Hb1 Hb2].
+      rewrite Hby, (assoc_binds sl l Hsl Hb2).
+      destruct (in_dec Nat.eq_dec sl l) as [Hl|Hn].
+      + rewrite (chain_is_global tabs _ (chain_blk tabs an l p lp rest0 Ht0 Ht1 Hp Hpar Hblk Hby Hfb Hrest) an l _ _ eq_refl). reflexivity.
+      + rewrite Hpar.
+        assert (Hin' : In sl (flat ((p, lp) :: rest0))) by (apply in_app_or in Hin; destruct Hin as [Hin|Hin]; [exact Hin|contradiction]).
+        exact (IH Hb1 Hin' p lp rest0 f eq_refl ltac:(cbn [length] in *; lia)).
   Qed.
 
-  Lemma resolve_good n tabs t ks loops i : tabs_good n tabs -> n <= length names -> t < length tabs -> i < n ->
-    resolve_cur (nth i names []) (mkst tabs t ks loops) =
-    inr ({| rs_sym := sym_of names i; rs_scope := Global; rs_depth := 0; rs_free := 0 |}, mkst tabs t ks loops).
+  Lemma resolve_good k tabs ch t l rest ks loops sl : cinv k tabs ch -> ch = (t, l) :: rest -> In sl (flat ch) ->
+    resolve_cur (nth sl names []) (mkst tabs t ks loops) =
+    inr ({| rs_sym := sym sl; rs_scope := Global; rs_depth := 0; rs_free := 0 |}, mkst tabs t ks loops).
   Proof.
-    intros Hg Hn Ht Hi. pose proof Hg as [Hlen [Hrp [Hrb [Hby [Hsy Hblk]]]]].
+    intros [Hch [Hk [Hb Hkn]]] -> Hin.
+    assert (Hbn : Forall (fun x => x < length names) (flat ((t, l) :: rest)))
+      by (eapply Forall_impl; [|exact Hb]; cbn; intros; lia).
+    assert (Hsl : sl < length names) by (exact (proj1 (Forall_forall _ _) Hbn sl Hin)).
     unfold resolve_cur, bind, cur. cbn [mkst st_stack]. unfold resolve, bind, get, get_tab. cbv beta. cbn [mkst mw w_tab st_tabs].
-    destruct (Nat.eq_dec t 0) as [->|Hnz].
-    - rewrite Hby, (byname_lookup n Hn i Hi). unfold ret, fuel_of. cbn [is_global st_tabs]. rewrite Hrp. reflexivity.
-    - destruct (Hblk t ltac:(lia)) as [Hb [Hfb [p [Hp Hlt]]]]. rewrite Hb, Hfb, Hp. cbn [Compiler.assoc].
-      unfold fuel_of. cbn [st_tabs].
-      rewrite (resolve_up_chain n tabs t _ _ i Hg Hn Hi p (S (length tabs)) ltac:(lia) ltac:(lia)). reflexivity.
+    pose proof (chain_is_global tabs _ Hch t l rest (fuel_of (mkst tabs t ks loops)) eq_refl) as Hglob.
+    rewrite flat_cons in Hin, Hbn. apply Forall_app in Hbn. destruct Hbn as [Hb1 Hb2].
+    inversion Hch as [l0 H0 H1 H2 H3 H4|t1 l0 p lp rest0 Ht0 Ht1 Hp Hpar Hblk Hby Hfb Hrest]; subst.
+    - cbn [flat map rev concat app] in Hin.
+      rewrite H3, (assoc_binds sl l Hsl Hb2).
+      destruct (in_dec Nat.eq_dec sl l) as [_|Hn]; [|contradiction].
+      unfold ret. rewrite Hglob. reflexivity.
+    - rewrite Hby, (assoc_binds sl l Hsl Hb2).
+      destruct (in_dec Nat.eq_dec sl l) as [_|Hn].
+      + unfold ret. rewrite Hglob. reflexivity.
+      + rewrite Hfb, Hpar. cbn [Compiler.assoc].
+        apply in_app_or in Hin. destruct Hin as [Hin|Hin]; [|contradiction].
+        unfold fuel_of. cbn [st_tabs mkst].
+        rewrite (resolve_up_chain tabs t _ _ sl Hsl _ Hrest Hb1 Hin p lp rest0 (S (length tabs)) eq_refl).
+        * reflexivity.
+        * pose proof (chain_len tabs _ Hrest p lp rest0 eq_refl). lia.
   Qed.
 
   Lemma add_consts_mkst tabs t ks loops ks' : add_consts (mkst tabs t ks loops) ks' = mkst tabs t (ks ++ ks') loops.
   Proof. reflexivity. Qed.
 
-  Lemma good_res_ok n tabs t ks loops : tabs_good n tabs -> n <= length names -> t < length tabs ->
-    res_ok names (mkst tabs t ks loops) n.
-  Proof. intros Hg Hn Ht kk i Hi. rewrite add_consts_mkst. apply (resolve_good n); assumption. Qed.
+  (* the visible variables by position *)
+  Lemma vnames_nth scope i : i < length scope -> nth i (vnames names scope) [] = nth (slot_of scope i) names [].
+  Proof.
+    intros Hi. unfold vnames, slot_of. rewrite (nth_indep _ [] (nth 0 names [])) by (rewrite map_length; exact Hi).
+    exact (map_nth (fun sl => nth sl names []) scope 0 i).
+  Qed.
+  Lemma sym_at_vnames scope i : i < length scope -> sym_at (vnames names scope) (slot_of scope) i = sym (slot_of scope i).
+  Proof. intros Hi. unfold sym_at, sym. rewrite (vnames_nth scope i Hi). reflexivity. Qed.
+  Lemma slot_in scope i : i < length scope -> In (slot_of scope i) scope.
+  Proof. intros Hi. apply nth_In. exact Hi. Qed.
+
+  Lemma good_res_ok k tabs ch t l rest ks loops : cinv k tabs ch -> ch = (t, l) :: rest ->
+    res_ok_at (vnames names (flat ch)) (slot_of (flat ch)) (mkst tabs t ks loops) (length (flat ch)).
+  Proof.
+    intros Hc Hch kk i Hi. rewrite add_consts_mkst, (vnames_nth _ i Hi), (sym_at_vnames _ i Hi).
+    exact (resolve_good k tabs ch t l rest (ks ++ kk) loops _ Hc Hch (slot_in _ i Hi)).
+  Qed.
 
   (* expressions on the program state *)
-  Lemma compile_exp n tabs t ks loops e f : tabs_good n tabs -> n <= length names -> t < length tabs ->
-    wf n e = true -> height e <= f ->
-    compile f (embed names e) (mkst tabs t ks loops) =
-    inr (I (fst (cexp (length ks) e)), mkst tabs t (ks ++ snd (cexp (length ks) e)) loops).
+  Lemma compile_exp k tabs ch t l rest ks loops e f scope : cinv k tabs ch -> ch = (t, l) :: rest -> scope = flat ch ->
+    wf (length scope) e = true -> height e <= f ->
+    compile f (embed (vnames names scope) e) (mkst tabs t ks loops) =
+    inr (I (fst (cexp_at (slot_of scope) (length ks) e)), mkst tabs t (ks ++ snd (cexp_at (slot_of scope) (length ks) e)) loops).
   Proof.
-    intros Hg Hn Ht Hwf Hf.
-    rewrite (compile_scalar_res names n e f (mkst tabs t ks loops) (mw t ks loops) [] eq_refl
-               (good_res_ok n tabs t ks loops Hg Hn Ht) Hwf Hf).
+    intros Hc Hch -> Hwf Hf.
+    rewrite (compile_scalar_at (vnames names (flat ch)) (slot_of (flat ch)) (length (flat ch)) e f (mkst tabs t ks loops) (mw t ks loops) [] eq_refl
+               (good_res_ok k tabs ch t l rest ks loops Hc Hch) Hwf Hf).
     reflexivity.
   Qed.
 
   (* ---------------------------------------------------------------- declarations *)
-  Lemma insert_next n tabs ks loops : tabs_good n tabs -> n < length names ->
-    exists tabs', insert_symbol 0 (nth n names []) false (mkst tabs 0 ks loops) = inr (sym_of names n, mkst tabs' 0 ks loops) /\
-                  tabs_good (S n) tabs' /\ ext tabs tabs'.
+  Lemma binds_snoc l k : binds (l ++ [k]) = (nth k names [], sym k) :: binds l.
+  Proof. unfold binds. rewrite rev_app_distr. reflexivity. Qed.
+
+  Lemma chain_head_fields tabs t l rest : chain tabs ((t, l) :: rest) ->
+    tb_byname (nth t tabs dummy_table) = binds l /\ tb_freebyname (nth t tabs dummy_table) = [] /\ t < length tabs.
+  Proof. intros H. inversion H; subst; repeat split; assumption. Qed.
+
+  Lemma insert_decl k tabs ch t l rest ks loops : cinv k tabs ch -> ch = (t, l) :: rest -> k < length names ->
+    exists tabs', insert_symbol t (nth k names []) false (mkst tabs t ks loops) = inr (sym k, mkst tabs' t ks loops) /\
+                  cinv (S k) tabs' ((t, l ++ [k]) :: rest).
   Proof.
-    intros [Hlen [Hrp [Hrb [Hby [Hsy Hblk]]]]] Hn.
-    destruct tabs as [|tb rest]; [cbn in Hlen; lia|]. cbn [nth] in Hrp, Hrb, Hby, Hsy.
-    eexists. split.
-    - unfold mkst. rewrite (insert_root tb rest _ _ _ _ Hrb ltac:(rewrite Hby; exact (byname_fresh n Hn))).
-      rewrite Hsy, map_length, seq_length. reflexivity.
-    - split.
-      + unfold tabs_good. cbn [nth length tb_parent tb_block tb_byname tb_syms].
-        split; [lia|]. split; [exact Hrp|]. split; [exact Hrb|].
-        split; [rewrite Hby, root_names_S; reflexivity|].
-        split; [rewrite seq_S, map_app; reflexivity|].
-        intros j Hj. destruct j as [|j]; [lia|]. exact (Hblk (S j) Hj).
-      + split; [cbn [length]; lia|]. intros j Hj. destruct j as [|j]; reflexivity.
+    intros [Hch [Hk [Hb Hkn]]] -> Hlt.
+    destruct (chain_head_fields tabs t l rest Hch) as [Hby [Hfb Htl]].
+    assert (Hbl : Forall (fun x => x < length names) l).
+    { rewrite flat_cons in Hb. apply Forall_app in Hb. destruct Hb as [_ Hb]. eapply Forall_impl; [|exact Hb]. cbn. intros; lia. }
+    assert (Hnotin : ~ In k l).
+    { intros Hin. rewrite flat_cons in Hb. apply Forall_app in Hb. destruct Hb as [_ Hb].
+      pose proof (proj1 (Forall_forall _ _) Hb k Hin) as Hlt'. cbn in Hlt'. lia. }
+    assert (Hfresh : Compiler.assoc (nth k names []) (tb_byname (nth t tabs dummy_table)) = None).
+    { rewrite Hby, (assoc_binds k l Hlt Hbl). destruct (in_dec Nat.eq_dec k l); [contradiction|reflexivity]. }
+    assert (Hown : owner (S (length tabs)) tabs t = 0).
+    { apply (chain_owner tabs _ Hch t l rest _ eq_refl). pose proof (chain_len tabs _ Hch t l rest eq_refl). lia. }
+    set (otb := nth 0 tabs dummy_table).
+    set (sy := {| sy_name := nth k names []; sy_index := N.of_nat (length (tb_syms otb)); sy_const := false |}).
+    assert (Hsy : sy = sym k) by (unfold sy, sym, otb; rewrite Hk; reflexivity).
+    set (otb' := {| tb_id := tb_id otb; tb_parent := tb_parent otb; tb_nchildren := tb_nchildren otb; tb_byname := tb_byname otb;
+                    tb_freebyname := tb_freebyname otb; tb_syms := tb_syms otb ++ [sy]; tb_free := tb_free otb; tb_block := tb_block otb |}).
+    set (tabs1 := Compiler.list_set tabs 0 otb').
+    set (tb' := nth t tabs1 dummy_table).
+    set (tb'' := {| tb_id := tb_id tb'; tb_parent := tb_parent tb'; tb_nchildren := tb_nchildren tb';
+                    tb_byname := (nth k names [], sy) :: tb_byname tb'; tb_freebyname := tb_freebyname tb';
+                    tb_syms := tb_syms tb'; tb_free := tb_free tb'; tb_block := tb_block tb' |}).
+    exists (Compiler.list_set tabs1 t tb''). split.
+    - unfold insert_symbol, bind, get_tab, get, set_tab, ret. cbv beta. cbn [mkst st_tabs st_stack st_funcindex].
+      rewrite Hfresh. cbv beta. unfold fuel_of. cbn [mkst st_tabs st_stack st_funcindex]. rewrite Hown. fold otb. fold sy. fold otb'. fold tabs1. fold tb'. fold tb''.
+      rewrite Hsy. reflexivity.
+    - assert (H0l : 0 < length tabs) by lia.
+      assert (Hl1 : length tabs1 = length tabs) by (apply length_cset).
+      (* the tables of the new list, field by field *)
+      assert (Hother : forall j, j <> t -> same_fields (nth j (Compiler.list_set tabs1 t tb'') dummy_table) (nth j tabs dummy_table)).
+      { intros j Hj. rewrite nth_cset_other by (intros E; apply Hj; symmetry; exact E).
+        unfold tabs1. destruct (Nat.eq_dec j 0) as [->|Hj0].
+        - rewrite nth_cset_same by exact H0l. repeat split; reflexivity.
+        - rewrite nth_cset_other by (intros E; apply Hj0; symmetry; exact E). repeat split; reflexivity. }
+      assert (Htb' : same_fields tb' (nth t tabs dummy_table) /\ (t = 0 -> tb_syms tb' = tb_syms otb ++ [sy])).
+      { unfold tb', tabs1. destruct (Nat.eq_dec t 0) as [->|Ht0].
+        - rewrite nth_cset_same by exact H0l. split; [repeat split; reflexivity|intros _; reflexivity].
+        - rewrite nth_cset_other by (intros E; apply Ht0; symmetry; exact E). split; [repeat split; reflexivity|intros E; contradiction]. }
+      destruct Htb' as [[F1 [F2 [F3 F4]]] Hsyms0].
+      assert (Hnew : nth t (Compiler.list_set tabs1 t tb'') dummy_table = tb'') by (apply nth_cset_same; rewrite Hl1; exact Htl).
+      assert (Hlen' : length (Compiler.list_set tabs1 t tb'') = length tabs) by (rewrite length_cset; exact Hl1).
+      split; [|split; [|split]].
+      + inversion Hch as [l0 H0 H1 H2 H3 H4|t1 l0 p lp rest0 Ht0 Ht1 Hp Hpar Hblk Hby' Hfb' Hrest]; subst.
+        * apply chain_root; rewrite ?Hlen', ?Hnew; cbn [tb'' tb_parent tb_block tb_byname tb_freebyname];
+            [exact H0l|rewrite F1; exact H1|rewrite F2; exact H2|rewrite F3, H3, binds_snoc, Hsy; reflexivity|rewrite F4; exact H4].
+        * apply chain_blk; rewrite ?Hlen', ?Hnew; cbn [tb'' tb_parent tb_block tb_byname tb_freebyname]; try assumption;
+            [rewrite F1; exact Hpar|rewrite F2; exact Hblk|rewrite F3, Hby', binds_snoc, Hsy; reflexivity|rewrite F4; exact Hfb'|].
+          apply (chain_mono tabs _ ltac:(rewrite Hlen'; lia) _ p lp rest0 eq_refl); [|exact Hrest].
+          intros j Hj. apply Hother. lia.
+      + destruct (Nat.eq_dec t 0) as [->|Ht0].
+        * rewrite Hnew. cbn [tb'' tb_syms]. rewrite (Hsyms0 eq_refl), app_length. fold otb in Hk. rewrite Hk. cbn. lia.
+        * rewrite nth_cset_other by exact Ht0. unfold tabs1. rewrite nth_cset_same by exact H0l.
+          cbn [otb' tb_syms]. rewrite app_length. fold otb in Hk. rewrite Hk. cbn. lia.
+      + rewrite flat_decl. apply Forall_app. split; [eapply Forall_impl; [|exact Hb]; cbn; intros; lia|constructor; [lia|constructor]].
+      + lia.
   Qed.
 
   (* ---------------------------------------------------------------- blocks *)
-  Lemma open_block_good n tabs t ks loops : tabs_good n tabs -> t < length tabs ->
+  Lemma open_block_good k tabs ch t l rest ks loops : cinv k tabs ch -> ch = (t, l) :: rest ->
     exists tabs', open_block (mkst tabs t ks loops) = inr (tt, mkst tabs' (length tabs) ks loops) /\
-                  tabs_good n tabs' /\ ext tabs tabs' /\ length tabs' = S (length tabs) /\
-                  tb_parent (nth (length tabs) tabs' dummy_table) = Some t.
+                  cinv k tabs' ((length tabs, []) :: ch).
   Proof.
-    intros [Hlen [Hrp [Hrb [Hby [Hsy Hblk]]]]] Ht.
-    eexists. split.
+    intros [Hch [Hk [Hb Hkn]]] ->.
+    destruct (chain_head_fields tabs t l rest Hch) as [_ [_ Htl]].
+    set (p := nth t tabs dummy_table).
+    set (p' := {| tb_id := tb_id p; tb_parent := tb_parent p; tb_nchildren := S (tb_nchildren p);
+                  tb_byname := tb_byname p; tb_freebyname := tb_freebyname p; tb_syms := tb_syms p;
+                  tb_free := tb_free p; tb_block := tb_block p |}).
+    set (nt := {| tb_id := tb_id p ++ [46%N] ++ dec (tb_nchildren p); tb_parent := Some t; tb_nchildren := 0;
+                  tb_byname := []; tb_freebyname := []; tb_syms := []; tb_free := []; tb_block := true |}).
+    exists (Compiler.list_set tabs t p' ++ [nt]). split.
     - unfold open_block, bind, cur, new_child, get_tab, set_tab, set_cur, bind.
       cbn [mkst st_stack st_tabs mw w_tab with_tab st_funcindex]. rewrite length_cset. reflexivity.
-    - set (p := nth t tabs dummy_table).
-      set (p' := {| tb_id := tb_id p; tb_parent := tb_parent p; tb_nchildren := S (tb_nchildren p);
-                    tb_byname := tb_byname p; tb_freebyname := tb_freebyname p; tb_syms := tb_syms p;
-                    tb_free := tb_free p; tb_block := tb_block p |}).
-      assert (Hsame : forall j, j < length tabs ->
-                forall (P : table -> Prop), (P (nth j tabs dummy_table) -> P p' -> True) ->
-                tb_parent (nth j (Compiler.list_set tabs t p') dummy_table) = tb_parent (nth j tabs dummy_table) /\
-                tb_byname (nth j (Compiler.list_set tabs t p') dummy_table) = tb_byname (nth j tabs dummy_table) /\
-                tb_freebyname (nth j (Compiler.list_set tabs t p') dummy_table) = tb_freebyname (nth j tabs dummy_table) /\
-                tb_syms (nth j (Compiler.list_set tabs t p') dummy_table) = tb_syms (nth j tabs dummy_table) /\
-                tb_block (nth j (Compiler.list_set tabs t p') dummy_table) = tb_block (nth j tabs dummy_table)).
-      { intros j Hj P _. destruct (Nat.eq_dec t j) as [<-|Hne].
-        - rewrite nth_cset_same by exact Ht. repeat split; reflexivity.
-        - rewrite nth_cset_other by exact Hne. repeat split; reflexivity. }
-      assert (Hs : forall j, j < length tabs ->
-                tb_parent (nth j (Compiler.list_set tabs t p' ++ [ {| tb_id := tb_id p ++ [46%N] ++ dec (tb_nchildren p); tb_parent := Some t; tb_nchildren := 0;
-                                                                      tb_byname := []; tb_freebyname := []; tb_syms := []; tb_free := []; tb_block := true |} ]) dummy_table)
-                = tb_parent (nth j tabs dummy_table)).
-      { intros j Hj. rewrite app_nth1 by (rewrite length_cset; exact Hj). apply (Hsame j Hj (fun _ => True)). auto. }
+    - assert (Hold : forall j, j < length tabs -> same_fields (nth j (Compiler.list_set tabs t p' ++ [nt]) dummy_table) (nth j tabs dummy_table)
+                                                  /\ tb_syms (nth j (Compiler.list_set tabs t p' ++ [nt]) dummy_table) = tb_syms (nth j tabs dummy_table)).
+      { intros j Hj. rewrite app_nth1 by (rewrite length_cset; exact Hj).
+        destruct (Nat.eq_dec t j) as [<-|Hne].
+        - rewrite nth_cset_same by exact Htl. split; [repeat split; reflexivity|reflexivity].
+        - rewrite nth_cset_other by exact Hne. split; [repeat split; reflexivity|reflexivity]. }
+      assert (Hnewt : nth (length tabs) (Compiler.list_set tabs t p' ++ [nt]) dummy_table = nt).
+      { rewrite app_nth2 by (rewrite length_cset; lia). rewrite length_cset, Nat.sub_diag. reflexivity. }
+      assert (Hlen' : length (Compiler.list_set tabs t p' ++ [nt]) = S (length tabs)) by (rewrite app_length, length_cset; cbn; lia).
       split; [|split; [|split]].
-      + unfold tabs_good. rewrite app_length, length_cset. cbn [length].
-        rewrite !(app_nth1 _ _ dummy_table) by (rewrite length_cset; exact Hlen).
-        destruct (Hsame 0 Hlen (fun _ => True) ltac:(auto)) as [E1 [E2 [E3 [E4 E5]]]].
-        rewrite E1, E2, E4, E5.
-        split; [lia|]. split; [exact Hrp|]. split; [exact Hrb|]. split; [exact Hby|]. split; [exact Hsy|].
-        intros j Hj. destruct (Nat.eq_dec j (length tabs)) as [->|Hne].
-        * rewrite app_nth2 by (rewrite length_cset; lia). rewrite length_cset, Nat.sub_diag. cbn [nth].
-          split; [reflexivity|]. split; [reflexivity|]. exists t. split; [reflexivity|exact Ht].
-        * assert (Hjl : j < length tabs) by lia.
-          rewrite app_nth1 by (rewrite length_cset; exact Hjl).
-          destruct (Hsame j Hjl (fun _ => True) ltac:(auto)) as [F1 [F2 [F3 [F4 F5]]]].
-          destruct (Hblk j ltac:(lia)) as [G1 [G2 G3]].
-          unfold blk_ok. rewrite F1, F2, F3. split; [exact G1|]. split; [exact G2|exact G3].
-      + split; [rewrite app_length, length_cset; cbn [length]; lia|exact Hs].
-      + rewrite app_length, length_cset. cbn [length]. lia.
-      + rewrite app_nth2 by (rewrite length_cset; lia). rewrite length_cset, Nat.sub_diag. reflexivity.
+      + apply chain_blk; rewrite ?Hlen', ?Hnewt; cbn [nt tb_parent tb_block tb_byname tb_freebyname]; try reflexivity; try lia.
+        apply (chain_mono tabs _ ltac:(rewrite Hlen'; lia) _ t l rest eq_refl); [|exact Hch].
+        intros j Hj. apply Hold. lia.
+      + rewrite (proj2 (Hold 0 ltac:(lia))). exact Hk.
+      + rewrite flat_cons, app_nil_r. exact Hb.
+      + exact Hkn.
   Qed.
 
-  Lemma close_block_to tabs j t ks loops : tb_parent (nth j tabs dummy_table) = Some t ->
-    close_block (mkst tabs j ks loops) = inr (tt, mkst tabs t ks loops).
+  Lemma close_block_to k tabs tn ln t l rest ks loops : cinv k tabs ((tn, ln) :: (t, l) :: rest) ->
+    close_block (mkst tabs tn ks loops) = inr (tt, mkst tabs t ks loops) /\ cinv k tabs ((t, l) :: rest).
   Proof.
-    intros H. unfold close_block, bind, cur, get_tab, set_cur. cbn [mkst st_stack st_tabs mw w_tab]. rewrite H. reflexivity.
+    intros [Hch [Hk [Hb Hkn]]]. destruct (chain_tail tabs tn ln t l rest Hch) as [Hpar Hrest]. split.
+    - unfold close_block, bind, cur, get_tab, set_cur. cbn [mkst st_stack st_tabs mw w_tab]. rewrite Hpar. reflexivity.
+    - split; [exact Hrest|]. split; [exact Hk|]. split; [|exact Hkn].
+      rewrite flat_cons in Hb. apply Forall_app in Hb. exact (proj1 Hb).
   Qed.
 
   (* ---------------------------------------------------------------- unfoldings of compile *)
@@ -227,7 +333,6 @@ Section Names.
       if sy_const (rs_sym rs) then fail (EConstAssign name) else
       bind (compile f v) (fun a => ret (a ++ store_res rs))).
   Proof. reflexivity. Qed.
-
   Lemma compile_NAssign_op f name o v : is_compound o = true ->
     compile (S f) (NAssign name (op_text o ++ [61%N]) v) =
     bind (resolve_cur name) (fun rs =>
@@ -264,16 +369,15 @@ Section Names.
       ret (a ++ I [opPopJumpForwardIfFalse; (nlen t + 4)%N] ++ t ++ I [opJumpForward; (nlen e + 2)%N] ++ e)))).
   Proof. reflexivity. Qed.
   (* compileForCondition *)
-  Lemma compile_NFor_cond f e body : compile (S f) (NFor (Some (embed names e)) None None body) =
+  Lemma compile_NFor_cond f vn e body : compile (S f) (NFor (Some (embed vn e)) None None body) =
     bind open_block (fun _ => bind (push_loop false) (fun _ =>
-      bind (compile f (embed names e)) (fun cc => bind (cblock f body) (fun b =>
+      bind (compile f (embed vn e)) (fun cc => bind (cblock f body) (fun b =>
         bind pop_loop (fun _ => bind close_block (fun _ =>
           let pre := cc ++ I [opPopJumpForwardIfFalse; (nlen b + 2 + 1 + 2 + 1)%N] in
           let inner := pre ++ b ++ I [opPopTop] in
           let jb := nlen inner in
           ret (patch 0 (jb + 2) jb inner ++ I [opJumpBackward; jb; opNop]))))))).
   Proof. destruct e; reflexivity. Qed.
-
   Lemma compile_NBreak f tabs t ks rest : compile (S f) NBreak (mkst tabs t ks ((false, 0) :: rest)) =
     inr ([SI opJumpForward; SBrk], mkst tabs t ks ((false, 0) :: rest)).
   Proof. reflexivity. Qed.
@@ -286,217 +390,241 @@ Section Names.
   Lemma pop_loop_mkst tabs t ks loops x : pop_loop (mkst tabs t ks (x :: loops)) = inr (tt, mkst tabs t ks loops).
   Proof. reflexivity. Qed.
 
-  Lemma pop_between_stmt k s : pop_between (embed_stmt names k s) = if is_expr_stmt s then I [opPopTop] else [].
+  Lemma pop_between_stmt k scope s : pop_between (embed_stmt names k scope s) = if is_expr_stmt s then I [opPopTop] else [].
   Proof. destruct s; cbn [embed_stmt is_expr_stmt]; unfold pop_between; try reflexivity. rewrite embed_is_expression; reflexivity. Qed.
-  Lemma nil_after_stmt k s : nil_after (embed_stmt names k s) = if is_expr_stmt s then [] else I [opNil].
+  Lemma nil_after_stmt k scope s : nil_after (embed_stmt names k scope s) = if is_expr_stmt s then [] else I [opNil].
   Proof. destruct s; cbn [embed_stmt is_expr_stmt]; unfold nil_after; try reflexivity. rewrite embed_is_expression; reflexivity. Qed.
 
   (* ---------------------------------------------------------------- statements, lists, blocks *)
-  (* what holds of one statement compiled with fuel S f *)
+  (* the slots a statement adds to the table it is in, and a list of statements *)
+  Definition dl (k : nat) (s : stmt) : list nat := match s with SDecl _ => [k] | _ => [] end.
+  Fixpoint dls (k : nat) (l : list stmt) : list nat :=
+    match l with [] => [] | s :: r => dl k s ++ dls (k + nd s) r end.
+  Lemma next_scope_flat k t l rest s : next_scope k (flat ((t, l) :: rest)) s = flat ((t, l ++ dl k s) :: rest).
+  Proof. destruct s; cbn [next_scope dl]; rewrite ?app_nil_r; try reflexivity. rewrite flat_decl. reflexivity. Qed.
+
   Definition loops_ok (lp : bool) (loops : list (bool * nat)) : Prop :=
     lp = true -> exists rest, loops = (false, 0) :: rest.
+  (* what holds of one statement compiled with fuel S f *)
   Definition stmt_ok (f : nat) : Prop :=
-    forall s k tabs t ks loops top lp,
-      sheight s <= f -> next_k k s <= length names -> wf_stmt top lp k s = true -> (top = true -> t = 0) ->
-      loops_ok lp loops -> tabs_good k tabs -> t < length tabs ->
-      exists tabs', compile (S f) (embed_stmt names k s) (mkst tabs t ks loops) =
-                    inr (fst (stmt_code k (length ks) s), mkst tabs' t (ks ++ snd (stmt_code k (length ks) s)) loops) /\
-                    tabs_good (next_k k s) tabs' /\ ext tabs tabs'.
+    forall s k tabs t l rest ks loops lp,
+      sheight s <= f -> k + nd s <= length names -> wf_stmt lp (length (flat ((t, l) :: rest))) s = true ->
+      loops_ok lp loops -> cinv k tabs ((t, l) :: rest) ->
+      exists tabs', compile (S f) (embed_stmt names k (flat ((t, l) :: rest)) s) (mkst tabs t ks loops) =
+                    inr (fst (stmt_code k (flat ((t, l) :: rest)) (length ks) s),
+                         mkst tabs' t (ks ++ snd (stmt_code k (flat ((t, l) :: rest)) (length ks) s)) loops) /\
+                    cinv (k + nd s) tabs' ((t, l ++ dl k s) :: rest).
 
-  Lemma cs_list f : stmt_ok f -> forall l k tabs t ks loops top lp,
-    l <> [] -> max_height l <= f -> k + ndecls l <= length names -> wf_stmts top lp k l = true -> (top = true -> t = 0) ->
-    loops_ok lp loops -> tabs_good k tabs -> t < length tabs ->
-    exists tabs', cs_loop (S f) (embed_stmts names k l) (mkst tabs t ks loops) =
-                  inr (fst (scode k (length ks) l), mkst tabs' t (ks ++ snd (scode k (length ks) l)) loops) /\
-                  tabs_good (k + ndecls l) tabs' /\ ext tabs tabs'.
+  Lemma cs_list f : stmt_ok f -> forall lst k tabs t l rest ks loops lp,
+    lst <> [] -> max_height lst <= f -> k + ndecls lst <= length names ->
+    wf_stmts lp (length (flat ((t, l) :: rest))) lst = true -> loops_ok lp loops -> cinv k tabs ((t, l) :: rest) ->
+    exists tabs', cs_loop (S f) (embed_stmts names k (flat ((t, l) :: rest)) lst) (mkst tabs t ks loops) =
+                  inr (fst (scode k (flat ((t, l) :: rest)) (length ks) lst),
+                       mkst tabs' t (ks ++ snd (scode k (flat ((t, l) :: rest)) (length ks) lst)) loops) /\
+                  cinv (k + ndecls lst) tabs' ((t, l ++ dls k lst) :: rest).
   Proof.
-    intros Hst. induction l as [|s r IH]; intros k tabs t ks loops top lp Hne Hh Hk Hwf Htop Hlp Hg Ht; [contradiction|].
+    intros Hst. induction lst as [|s r IH]; intros k tabs t l rest ks loops lp Hne Hh Hk Hwf Hlp Hc; [contradiction|].
     rewrite wf_stmts_cons in Hwf. apply andb_true_iff in Hwf. destruct Hwf as [Hws Hwr].
-    rewrite max_height_cons in Hh. rewrite embed_stmts_cons.
-    assert (Hnk : next_k k s <= length names) by (rewrite <- ndecls_cons in Hk; lia).
-    destruct (Hst s k tabs t ks loops top lp ltac:(lia) Hnk Hws Htop Hlp Hg Ht) as [tabs1 [Hc [Hg1 Hx1]]].
+    rewrite max_height_cons in Hh. rewrite ndecls_cons in Hk. rewrite embed_stmts_cons.
+    destruct (Hst s k tabs t l rest ks loops lp ltac:(lia) ltac:(lia) Hws Hlp Hc) as [tabs1 [Hcs Hc1]].
     destruct r as [|s2 r2].
     - (* the last statement *)
-      exists tabs1. split; [|split; [|exact Hx1]].
-      + cbn [embed_stmts embed_list cs_loop]. rewrite scode_single. unfold bind. rewrite Hc.
-        destruct (stmt_code k (length ks) s) as [c kk]. cbn [fst snd]. unfold ret.
+      exists tabs1. split.
+      + cbn [embed_stmts embed_list cs_loop]. rewrite scode_single. unfold bind. rewrite Hcs.
+        destruct (stmt_code k (flat ((t, l) :: rest)) (length ks) s) as [c kk]. cbn [fst snd]. unfold ret.
         rewrite nil_after_stmt. destruct (is_expr_stmt s); reflexivity.
-      + rewrite <- ndecls_cons. cbn [ndecls]. rewrite Nat.add_0_r. exact Hg1.
+      + cbn [dls ndecls sum_list fold_right]. rewrite !Nat.add_0_r, app_nil_r. exact Hc1.
     - (* more statements follow *)
       assert (Hr : s2 :: r2 <> []) by discriminate.
-      assert (Ht1 : t < length tabs1) by (destruct Hx1 as [Hl _]; lia).
-      destruct (stmt_code k (length ks) s) as [c kk] eqn:Es. cbn [fst snd] in Hc.
-      destruct (IH (next_k k s) tabs1 t (ks ++ kk) loops top lp Hr ltac:(lia) ltac:(rewrite ndecls_cons; exact Hk) Hwr Htop Hlp Hg1 Ht1)
-        as [tabs2 [Hc2 [Hg2 Hx2]]].
-      exists tabs2. split; [|split; [|exact (ext_trans _ _ _ Hx1 Hx2)]].
-      + rewrite (embed_stmts_cons names (next_k k s) s2 r2), cs_loop_cons, <- (embed_stmts_cons names (next_k k s) s2 r2).
-        unfold bind at 1. rewrite Hc. unfold bind at 1. rewrite Hc2.
-        rewrite app_length, scode_cons2, Es.
-        destruct (scode (next_k k s) (length ks + length kk) (s2 :: r2)) as [cr kr]. cbn [fst snd].
+      destruct (stmt_code k (flat ((t, l) :: rest)) (length ks) s) as [c kk] eqn:Es. cbn [fst snd] in Hcs.
+      rewrite <- next_scope_length with (k := k) (scope := flat ((t, l) :: rest)) in Hwr. rewrite next_scope_flat in Hwr.
+      destruct (IH (k + nd s) tabs1 t (l ++ dl k s) rest (ks ++ kk) loops lp Hr ltac:(lia) ltac:(lia) Hwr Hlp Hc1)
+        as [tabs2 [Hc2 Hcv2]].
+      exists tabs2. split.
+      + rewrite (embed_stmts_cons names (k + nd s) _ s2 r2), cs_loop_cons, <- (embed_stmts_cons names (k + nd s) _ s2 r2).
+        unfold bind at 1. rewrite Hcs. unfold bind at 1. rewrite next_scope_flat, Hc2.
+        rewrite app_length, scode_cons2, Es, next_scope_flat.
+        destruct (scode (k + nd s) (flat ((t, l ++ dl k s) :: rest)) (length ks + length kk) (s2 :: r2)) as [cr kr]. cbn [fst snd].
         unfold ret. rewrite pop_between_stmt, <- app_assoc.
         destruct (is_expr_stmt s); reflexivity.
-      + rewrite <- ndecls_cons. exact Hg2.
+      + rewrite ndecls_cons, Nat.add_assoc. cbn [dls]. rewrite app_assoc. exact Hcv2.
   Qed.
 
-  (* a whole block: opens a table, compiles the statements (Nil for none), closes it *)
-  Lemma cblock_good f : stmt_ok f -> forall l k tabs t ks loops lp,
-    max_height l <= f -> k <= length names -> wf_stmts false lp k l = true -> loops_ok lp loops -> tabs_good k tabs -> t < length tabs ->
-    exists tabs', cblock (S f) (embed_stmts names k l) (mkst tabs t ks loops) =
-                  inr (fst (block_code k (length ks) l), mkst tabs' t (ks ++ snd (block_code k (length ks) l)) loops) /\
-                  tabs_good k tabs' /\ ext tabs tabs'.
+  (* a whole block: opens a table, compiles the statements (Nil for none), closes it; its variables are gone *)
+  Lemma cblock_good f : stmt_ok f -> forall lst k tabs t l rest ks loops lp,
+    max_height lst <= f -> k + ndecls lst <= length names ->
+    wf_stmts lp (length (flat ((t, l) :: rest))) lst = true -> loops_ok lp loops -> cinv k tabs ((t, l) :: rest) ->
+    exists tabs', cblock (S f) (embed_stmts names k (flat ((t, l) :: rest)) lst) (mkst tabs t ks loops) =
+                  inr (fst (block_code k (flat ((t, l) :: rest)) (length ks) lst),
+                       mkst tabs' t (ks ++ snd (block_code k (flat ((t, l) :: rest)) (length ks) lst)) loops) /\
+                  cinv (k + ndecls lst) tabs' ((t, l) :: rest).
   Proof.
-    intros Hst l k tabs t ks loops lp Hh Hk Hwf Hlp Hg Ht.
-    destruct (open_block_good k tabs t ks loops Hg Ht) as [tabs1 [Ho [Hg1 [Hx1 [Hl1 Hp1]]]]].
+    intros Hst lst k tabs t l rest ks loops lp Hh Hk Hwf Hlp Hc.
+    destruct (open_block_good k tabs _ t l rest ks loops Hc eq_refl) as [tabs1 [Ho Hc1]].
     unfold cblock. unfold bind at 1. rewrite Ho.
-    destruct l as [|s r].
-    - exists tabs1. split; [|split; assumption].
-      cbn [embed_stmts embed_list]. rewrite block_code_nil. cbn [fst snd]. unfold bind, ret.
-      rewrite (close_block_to tabs1 (length tabs) t ks loops Hp1), app_nil_r. reflexivity.
+    assert (Hfl : flat ((length tabs, []) :: (t, l) :: rest) = flat ((t, l) :: rest)) by (rewrite (flat_cons (length tabs)), app_nil_r; reflexivity).
+    destruct lst as [|s r].
+    - exists tabs1. destruct (close_block_to k tabs1 (length tabs) [] t l rest ks loops Hc1) as [Hcl Hc2]. split.
+      + cbn [embed_stmts embed_list]. rewrite block_code_nil. cbn [fst snd]. unfold bind, ret.
+        rewrite Hcl, app_nil_r. reflexivity.
+      + cbn [ndecls sum_list fold_right]. rewrite Nat.add_0_r. exact Hc2.
     - assert (Hne : s :: r <> []) by discriminate.
-      pose proof (wf_false_ndecls _ _ _ Hwf) as Hnd.
-      destruct (cs_list f Hst (s :: r) k tabs1 (length tabs) ks loops false lp Hne Hh ltac:(lia) Hwf ltac:(discriminate) Hlp Hg1 ltac:(lia))
-        as [tabs2 [Hc [Hg2 Hx2]]].
-      exists tabs2. rewrite Hnd, Nat.add_0_r in Hg2. split; [|split; [exact Hg2|exact (ext_trans _ _ _ Hx1 Hx2)]].
-      rewrite embed_stmts_cons. rewrite embed_stmts_cons in Hc.
-      unfold bind at 1. rewrite Hc. rewrite block_code_cons.
-      destruct (scode k (length ks) (s :: r)) as [c kk]. cbn [fst snd].
-      unfold bind, ret. rewrite (close_block_to tabs2 (length tabs) t _ loops); [reflexivity|].
-      destruct Hx2 as [_ Hpp]. rewrite Hpp by lia. exact Hp1.
+      rewrite <- Hfl in Hwf |- *.
+      destruct (cs_list f Hst (s :: r) k tabs1 (length tabs) [] ((t, l) :: rest) ks loops lp Hne Hh Hk Hwf Hlp Hc1)
+        as [tabs2 [Hcs Hc2]].
+      exists tabs2. cbn [app] in Hc2.
+      destruct (close_block_to (k + ndecls (s :: r)) tabs2 (length tabs) _ t l rest
+                  (ks ++ snd (scode k (flat ((length tabs, []) :: (t, l) :: rest)) (length ks) (s :: r))) loops Hc2) as [Hcl Hc3].
+      split; [|exact Hc3].
+      rewrite embed_stmts_cons. rewrite embed_stmts_cons in Hcs.
+      unfold bind at 1. rewrite Hcs. rewrite block_code_cons.
+      destruct (scode k (flat ((length tabs, []) :: (t, l) :: rest)) (length ks) (s :: r)) as [c kk]. cbn [fst snd] in *.
+      unfold bind, ret. rewrite Hcl. reflexivity.
   Qed.
 
   Theorem compile_stmt : forall f, stmt_ok f.
   Proof.
     induction f as [f IH] using lt_wf_ind.
-    intros s k tabs t ks loops top lp Hh Hk Hwf Htop Hlp Hg Ht.
+    intros s k tabs t l rest ks loops lp Hh Hk Hwf Hlp Hc.
+    set (ch := (t, l) :: rest) in *. set (scope := flat ch) in *.
     destruct s as [e|i e|i o e|i up|e|c tb eb|c tb|c b| |].
     - (* x := e *)
-      cbn [embed_stmt stmt_code next_k wf_stmt sheight] in *.
-      apply andb_true_iff in Hwf. destruct Hwf as [Hto Hwf]. rewrite (Htop Hto) in *.
+      cbn [embed_stmt stmt_code nd wf_stmt sheight dl] in *.
       rewrite compile_NVar.
-      destruct (cexp (length ks) e) as [c kk] eqn:Ee.
-      destruct (insert_next k tabs (ks ++ kk) loops Hg ltac:(lia)) as [tabs1 [Hin [Hg1 Hx1]]].
-      exists tabs1. split; [|split; assumption].
-      unfold bind at 1. rewrite (compile_exp k tabs 0 ks loops e f Hg ltac:(lia) Ht Hwf Hh), Ee. cbn [fst snd].
-      unfold bind, cur. cbn [mkst st_stack mw w_tab]. fold (mw 0 (ks ++ kk) loops). fold (mkst tabs 0 (ks ++ kk) loops).
+      destruct (cexp_at (slot_of scope) (length ks) e) as [c kk] eqn:Ee.
+      destruct (insert_decl k tabs ch t l rest (ks ++ kk) loops Hc eq_refl ltac:(lia)) as [tabs1 [Hin Hc1]].
+      exists tabs1. split; [|rewrite Nat.add_1_r; exact Hc1].
+      unfold bind at 1. rewrite (compile_exp k tabs ch t l rest ks loops e f scope Hc eq_refl eq_refl Hwf Hh). rewrite Ee. cbn [fst snd].
+      unfold bind, cur. cbn [mkst st_stack mw w_tab]. fold (mw t (ks ++ kk) loops). fold (mkst tabs t (ks ++ kk) loops).
       rewrite Hin.
-      unfold store_sym, bind, is_root, cur, ret. cbn [mkst st_stack mw w_root sym_of sy_index].
+      unfold store_sym, bind, is_root, cur, ret. cbn [mkst st_stack mw w_root sym sy_index].
       rewrite I_app. reflexivity.
     - (* x = e *)
-      cbn [embed_stmt stmt_code next_k wf_stmt sheight] in *.
+      cbn [embed_stmt stmt_code nd wf_stmt sheight dl] in *. rewrite Nat.add_0_r, app_nil_r.
       apply andb_true_iff in Hwf. destruct Hwf as [Hi Hwf]. apply Nat.ltb_lt in Hi.
-      exists tabs. split; [|split; [exact Hg|apply ext_refl]].
+      exists tabs. split; [|exact Hc].
       rewrite compile_NAssign_eq. unfold bind at 1.
-      rewrite (resolve_good k tabs t ks loops i Hg Hk Ht Hi).
-      cbn [rs_sym sym_of sy_const]. unfold bind.
-      rewrite (compile_exp k tabs t ks loops e f Hg Hk Ht Hwf Hh).
-      destruct (cexp (length ks) e) as [c kk]. cbn [fst snd].
-      unfold ret, store_res. cbn [rs_scope rs_sym sym_of sy_index]. rewrite I_app. reflexivity.
+      rewrite (vnames_nth scope i Hi), (resolve_good k tabs ch t l rest ks loops _ Hc eq_refl (slot_in scope i Hi)).
+      cbn [rs_sym sym sy_const]. unfold bind.
+      rewrite (compile_exp k tabs ch t l rest ks loops e f scope Hc eq_refl eq_refl Hwf Hh).
+      destruct (cexp_at (slot_of scope) (length ks) e) as [c kk]. cbn [fst snd].
+      unfold ret, store_res. cbn [rs_scope rs_sym sym sy_index]. rewrite I_app. reflexivity.
     - (* x += e *)
-      cbn [embed_stmt stmt_code next_k wf_stmt sheight] in *.
+      cbn [embed_stmt stmt_code nd wf_stmt sheight dl] in *. rewrite Nat.add_0_r, app_nil_r.
       apply andb_true_iff in Hwf. destruct Hwf as [Hwf Ho]. apply andb_true_iff in Hwf. destruct Hwf as [Hi Hwf]. apply Nat.ltb_lt in Hi.
-      exists tabs. split; [|split; [exact Hg|apply ext_refl]].
+      exists tabs. split; [|exact Hc].
       rewrite (compile_NAssign_op f _ o _ Ho). unfold bind at 1.
-      rewrite (resolve_good k tabs t ks loops i Hg Hk Ht Hi).
-      cbn [rs_sym sym_of sy_const]. unfold bind.
-      rewrite (compile_exp k tabs t ks loops e f Hg Hk Ht Hwf Hh).
-      destruct (cexp (length ks) e) as [c kk]. cbn [fst snd].
-      unfold ret, store_res, load_res. cbn [rs_scope rs_sym sym_of sy_index]. rewrite <- !I_app. reflexivity.
+      rewrite (vnames_nth scope i Hi), (resolve_good k tabs ch t l rest ks loops _ Hc eq_refl (slot_in scope i Hi)).
+      cbn [rs_sym sym sy_const]. unfold bind.
+      rewrite (compile_exp k tabs ch t l rest ks loops e f scope Hc eq_refl eq_refl Hwf Hh).
+      destruct (cexp_at (slot_of scope) (length ks) e) as [c kk]. cbn [fst snd].
+      unfold ret, store_res, load_res. cbn [rs_scope rs_sym sym sy_index]. rewrite <- !I_app. reflexivity.
     - (* x++ / x-- *)
-      cbn [embed_stmt stmt_code next_k wf_stmt sheight fst snd] in *. apply Nat.ltb_lt in Hwf.
-      exists tabs. split; [|split; [exact Hg|apply ext_refl]].
+      cbn [embed_stmt stmt_code nd wf_stmt sheight dl fst snd] in *. rewrite Nat.add_0_r, app_nil_r. apply Nat.ltb_lt in Hwf.
+      exists tabs. split; [|exact Hc].
       rewrite compile_NPostfix. unfold bind at 1.
-      rewrite (resolve_good k tabs t ks loops i Hg Hk Ht Hwf).
+      rewrite (vnames_nth scope i Hwf), (resolve_good k tabs ch t l rest ks loops _ Hc eq_refl (slot_in scope i Hwf)).
       unfold bind. rewrite (constant_spec _ (mkst tabs t ks loops) (mw t ks loops) [] eq_refl).
-      unfold ret, store_res, load_res. cbn [rs_scope rs_sym sym_of sy_index mw w_consts]. rewrite <- !I_app. reflexivity.
+      unfold ret, store_res, load_res. cbn [rs_scope rs_sym sym sy_index mw w_consts]. rewrite <- !I_app. reflexivity.
     - (* e *)
-      cbn [embed_stmt stmt_code next_k wf_stmt sheight] in *.
-      exists tabs. split; [|split; [exact Hg|apply ext_refl]].
-      exact (compile_exp k tabs t ks loops e (S f) Hg Hk Ht Hwf ltac:(lia)).
+      cbn [embed_stmt stmt_code nd wf_stmt sheight dl] in *. rewrite Nat.add_0_r, app_nil_r.
+      exists tabs. split; [|exact Hc].
+      rewrite (compile_exp k tabs ch t l rest ks loops e (S f) scope Hc eq_refl eq_refl Hwf ltac:(lia)).
+      destruct (cexp_at (slot_of scope) (length ks) e) as [c kk]. reflexivity.
     - (* if c { tb } else { eb } *)
       rewrite wf_SIf in Hwf. apply andb_true_iff in Hwf. destruct Hwf as [Hwct Hwe].
       apply andb_true_iff in Hwct. destruct Hwct as [Hwc Hwt].
-      rewrite sheight_SIf in Hh. destruct f as [|f]; [lia|]. cbn [next_k] in *.
+      rewrite sheight_SIf in Hh. destruct f as [|f]; [lia|]. rewrite nd_SIf in *. cbn [dl]. rewrite app_nil_r.
       assert (Hst : stmt_ok f) by (apply IH; lia).
       rewrite embed_SIf, code_SIf, compile_NIf.
-      destruct (cexp (length ks) c) as [cc kc] eqn:Ec.
-      destruct (cblock_good f Hst tb k tabs t (ks ++ kc) loops lp ltac:(lia) Hk Hwt Hlp Hg Ht) as [tabs1 [Hc1 [Hg1 Hx1]]].
-      rewrite app_length in Hc1.
-      destruct (block_code k (length ks + length kc) tb) as [ct kt] eqn:Et. cbn [fst snd] in Hc1.
-      assert (Ht1 : t < length tabs1) by (destruct Hx1 as [Hl _]; lia).
-      destruct (cblock_good f Hst eb k tabs1 t ((ks ++ kc) ++ kt) loops lp ltac:(lia) Hk Hwe Hlp Hg1 Ht1) as [tabs2 [Hc2 [Hg2 Hx2]]].
-      rewrite !app_length in Hc2.
-      destruct (block_code k (length ks + length kc + length kt) eb) as [ce ke] eqn:Ee. cbn [fst snd] in Hc2.
-      exists tabs2. split; [|split; [exact Hg2|exact (ext_trans _ _ _ Hx1 Hx2)]].
-      unfold bind at 1. rewrite (compile_exp k tabs t ks loops c (S f) Hg Hk Ht Hwc ltac:(lia)), Ec. cbn [fst snd].
+      destruct (cexp_at (slot_of scope) (length ks) c) as [cc kc] eqn:Ec.
+      destruct (cblock_good f Hst tb k tabs t l rest (ks ++ kc) loops lp ltac:(lia) ltac:(lia) Hwt Hlp Hc) as [tabs1 [Hc1 Hcv1]].
+      fold ch scope in Hc1. rewrite app_length in Hc1.
+      destruct (block_code k scope (length ks + length kc) tb) as [ct kt] eqn:Et. cbn [fst snd] in Hc1.
+      destruct (cblock_good f Hst eb (k + ndecls tb) tabs1 t l rest ((ks ++ kc) ++ kt) loops lp ltac:(lia) ltac:(lia) Hwe Hlp Hcv1) as [tabs2 [Hc2 Hcv2]].
+      fold ch scope in Hc2. rewrite !app_length in Hc2.
+      destruct (block_code (k + ndecls tb) scope (length ks + length kc + length kt) eb) as [ce ke] eqn:Ee. cbn [fst snd] in Hc2.
+      exists tabs2. split; [|rewrite Nat.add_assoc; exact Hcv2].
+      unfold bind at 1. rewrite (compile_exp k tabs ch t l rest ks loops c (S f) scope Hc eq_refl eq_refl Hwc ltac:(lia)). rewrite Ec. cbn [fst snd].
       unfold bind at 1. rewrite Hc1. unfold bind at 1. rewrite Hc2.
       unfold ret. rewrite <- !app_assoc. reflexivity.
     - (* if c { tb } *)
       rewrite wf_SIf1 in Hwf. apply andb_true_iff in Hwf. destruct Hwf as [Hwc Hwt].
-      rewrite sheight_SIf1 in Hh. destruct f as [|f]; [lia|]. cbn [next_k] in *.
+      rewrite sheight_SIf1 in Hh. destruct f as [|f]; [lia|]. rewrite nd_SIf1 in *. cbn [dl]. rewrite app_nil_r.
       assert (Hst : stmt_ok f) by (apply IH; lia).
       rewrite embed_SIf1, code_SIf1, compile_NIf1.
-      destruct (cexp (length ks) c) as [cc kc] eqn:Ec.
-      destruct (cblock_good f Hst tb k tabs t (ks ++ kc) loops lp ltac:(lia) Hk Hwt Hlp Hg Ht) as [tabs1 [Hc1 [Hg1 Hx1]]].
-      rewrite app_length in Hc1.
-      destruct (block_code k (length ks + length kc) tb) as [ct kt] eqn:Et. cbn [fst snd] in Hc1.
-      exists tabs1. split; [|split; [exact Hg1|exact Hx1]].
-      unfold bind at 1. rewrite (compile_exp k tabs t ks loops c (S f) Hg Hk Ht Hwc ltac:(lia)), Ec. cbn [fst snd].
+      destruct (cexp_at (slot_of scope) (length ks) c) as [cc kc] eqn:Ec.
+      destruct (cblock_good f Hst tb k tabs t l rest (ks ++ kc) loops lp ltac:(lia) ltac:(lia) Hwt Hlp Hc) as [tabs1 [Hc1 Hcv1]].
+      fold ch scope in Hc1. rewrite app_length in Hc1.
+      destruct (block_code k scope (length ks + length kc) tb) as [ct kt] eqn:Et. cbn [fst snd] in Hc1.
+      exists tabs1. split; [|exact Hcv1].
+      unfold bind at 1. rewrite (compile_exp k tabs ch t l rest ks loops c (S f) scope Hc eq_refl eq_refl Hwc ltac:(lia)). rewrite Ec. cbn [fst snd].
       unfold bind at 1. rewrite Hc1. unfold bind at 1. unfold ret at 1.
       unfold ret. rewrite <- !app_assoc. reflexivity.
     - (* for c { b } *)
       rewrite wf_SWhile in Hwf. apply andb_true_iff in Hwf. destruct Hwf as [Hwc Hwb].
-      rewrite sheight_SWhile in Hh. destruct f as [|f]; [lia|]. cbn [next_k] in *.
+      rewrite sheight_SWhile in Hh. destruct f as [|f]; [lia|]. rewrite nd_SWhile in *. cbn [dl]. rewrite app_nil_r.
       assert (Hst : stmt_ok f) by (apply IH; lia).
       rewrite embed_SWhile, code_SWhile, compile_NFor_cond.
-      destruct (open_block_good k tabs t ks loops Hg Ht) as [tabs1 [Ho [Hg1 [Hx1 [Hl1 Hp1]]]]].
-      destruct (cexp (length ks) c) as [cc kc] eqn:Ec.
+      destruct (open_block_good k tabs ch t l rest ks loops Hc eq_refl) as [tabs1 [Ho Hc1]].
+      assert (Hfl : flat ((length tabs, []) :: ch) = scope) by (rewrite (flat_cons (length tabs)), app_nil_r; reflexivity).
+      destruct (cexp_at (slot_of scope) (length ks) c) as [cc kc] eqn:Ec.
       assert (Hlp' : loops_ok true ((false, 0) :: loops)) by (intros _; eexists; reflexivity).
-      destruct (cblock_good f Hst b k tabs1 (length tabs) (ks ++ kc) ((false, 0) :: loops) true ltac:(lia) Hk Hwb Hlp' Hg1 ltac:(lia))
-        as [tabs2 [Hc2 [Hg2 Hx2]]].
-      rewrite app_length in Hc2.
-      destruct (block_code k (length ks + length kc) b) as [cb kb] eqn:Eb. cbn [fst snd] in Hc2.
-      exists tabs2. split; [|split; [exact Hg2|exact (ext_trans _ _ _ Hx1 Hx2)]].
+      assert (Hwb' : wf_stmts true (length (flat ((length tabs, []) :: ch))) b = true) by (rewrite Hfl; exact Hwb).
+      destruct (cblock_good f Hst b k tabs1 (length tabs) [] ch (ks ++ kc) ((false, 0) :: loops) true ltac:(lia) ltac:(lia) Hwb' Hlp' Hc1)
+        as [tabs2 [Hc2 Hcv2]].
+      rewrite Hfl, app_length in Hc2.
+      destruct (block_code k scope (length ks + length kc) b) as [cb kb] eqn:Eb. cbn [fst snd] in Hc2.
+      destruct (close_block_to (k + ndecls b) tabs2 (length tabs) [] t l rest ((ks ++ kc) ++ kb) loops Hcv2) as [Hcl Hcv3].
+      exists tabs2. split; [|exact Hcv3].
       unfold bind at 1. rewrite Ho. unfold bind at 1. rewrite push_loop_mkst.
       unfold bind at 1.
-      rewrite (compile_exp k tabs1 (length tabs) ks ((false, 0) :: loops) c (S f) Hg1 Hk ltac:(lia) Hwc ltac:(lia)), Ec. cbn [fst snd].
+      rewrite (compile_exp k tabs1 ((length tabs, []) :: ch) (length tabs) [] ch ks ((false, 0) :: loops) c (S f) scope Hc1 eq_refl (eq_sym Hfl) Hwc ltac:(lia)).
+      rewrite Ec. cbn [fst snd].
       unfold bind at 1. rewrite Hc2. unfold bind at 1. rewrite pop_loop_mkst.
-      unfold bind at 1. rewrite (close_block_to tabs2 (length tabs) t _ loops) by (destruct Hx2 as [_ Hpp]; rewrite Hpp by lia; exact Hp1).
+      unfold bind at 1. rewrite Hcl.
       cbv zeta. unfold ret.
       replace (nlen cb + 2 + 1 + 2 + 1)%N with (nlen cb + 6)%N by lia.
       rewrite <- !app_assoc. reflexivity.
     - (* break *)
-      cbn [wf_stmt] in Hwf. destruct (Hlp Hwf) as [rest ->].
-      exists tabs. split; [|split; [exact Hg|apply ext_refl]].
-      cbn [embed_stmt stmt_code fst snd]. rewrite compile_NBreak, app_nil_r. reflexivity.
+      cbn [wf_stmt] in Hwf. destruct (Hlp Hwf) as [rest' ->].
+      exists tabs. cbn [nd dl stmt_code fst snd embed_stmt]. rewrite Nat.add_0_r, !app_nil_r. split; [|exact Hc].
+      apply compile_NBreak.
     - (* continue *)
-      cbn [wf_stmt] in Hwf. destruct (Hlp Hwf) as [rest ->].
-      exists tabs. split; [|split; [exact Hg|apply ext_refl]].
-      cbn [embed_stmt stmt_code fst snd]. rewrite compile_NContinue, app_nil_r. reflexivity.
+      cbn [wf_stmt] in Hwf. destruct (Hlp Hwf) as [rest' ->].
+      exists tabs. cbn [nd dl stmt_code fst snd embed_stmt]. rewrite Nat.add_0_r, !app_nil_r. split; [|exact Hc].
+      apply compile_NContinue.
   Qed.
 
   (* ---------------------------------------------------------------- the program *)
-  Lemma strip_I l : map (fun s => match s with SI n => n | _ => PLACEHOLDER end) (I l) = l.
-  Proof. unfold I. rewrite map_map. induction l; cbn; congruence. Qed.
-
-  Lemma collect_decls_stmts st : forall l k, collect_decls (embed_stmts names k l) st = inr (tt, st).
+  Lemma init_is_mkst : init_state [] = mkst (st_tabs (init_state [])) 0 [] [].
+  Proof. reflexivity. Qed.
+  Lemma init_cinv : cinv 0 (st_tabs (init_state [])) [(0, [])].
   Proof.
-    unfold collect_decls. induction l as [|s r IH]; intros k; [reflexivity|].
+    split; [|split; [reflexivity|split; [constructor|lia]]].
+    apply chain_root; cbn; try reflexivity. lia.
+  Qed.
+
+  Lemma collect_decls_stmts st : forall l k scope, collect_decls (embed_stmts names k scope l) st = inr (tt, st).
+  Proof.
+    unfold collect_decls. induction l as [|s r IH]; intros k scope; [reflexivity|].
     rewrite embed_stmts_cons.
     destruct s as [e|i e|i o e|i up|e|c t e|c t|c b| |]; cbn [embed_stmt]; try apply IH.
     destruct e; cbn [embed]; apply IH.
   Qed.
 
   Theorem compile_var_program l f :
-    l <> [] -> ndecls l <= length names -> wf_stmts true false 0 l = true -> max_height l <= f ->
-    exists tabs, compile_program (S f) [] (embed_stmts names 0 l) =
-                 inr (Code main_id main_id false 0 (fst (pcode 0 0 l)) (snd (pcode 0 0 l)) [] [] [], tabs).
+    l <> [] -> ndecls l <= length names -> wf_stmts false 0 l = true -> max_height l <= f ->
+    exists tabs, compile_program (S f) [] (embed_stmts names 0 [] l) =
+                 inr (Code main_id main_id false 0 (fst (pcode l)) (snd (pcode l)) [] [] [], tabs).
   Proof.
     intros Hne Hn Hwf Hh.
-    destruct (cs_list f (compile_stmt f) l 0 (st_tabs (init_state [])) 0 [] [] true false Hne Hh Hn Hwf (fun _ => eq_refl)
-                ltac:(intros H; discriminate) init_tabs_good ltac:(cbn; lia)) as [tabs [Hc _]].
+    destruct (cs_list f (compile_stmt f) l 0 (st_tabs (init_state [])) 0 [] [] [] [] false Hne Hh Hn Hwf
+                ltac:(intros H; discriminate) init_cinv) as [tabs [Hc _]].
+    change (flat [(0, [])]) with (@nil nat) in Hc.
     exists tabs. unfold compile_program. rewrite init_is_mkst.
     unfold bind at 1. unfold ret at 1. unfold bind at 1.
-    rewrite (collect_decls_stmts _ l 0).
+    rewrite (collect_decls_stmts _ l 0 []).
     destruct l as [|s r]; [contradiction|].
     rewrite embed_stmts_cons. rewrite embed_stmts_cons in Hc.
     change (fix cs (l0 : list node) : M (list slot) :=
@@ -505,10 +633,10 @@ Section Names.
               | [x] => bind (compile (S f) x) (fun a => ret (a ++ nil_after x))
               | x :: (_ :: _) as r0 => bind (compile (S f) x) (fun a => bind (cs r0) (fun b => ret (a ++ pop_between x ++ b)))
               end) with (cs_loop (S f)).
-    change (match embed_stmts names (next_k 0 s) r with [] => _ | _ :: _ => _ end)
-      with (cs_loop (S f) (embed_stmt names 0 s :: embed_stmts names (next_k 0 s) r)).
+    change (match embed_stmts names (0 + nd s) (next_scope 0 [] s) r with [] => _ | _ :: _ => _ end)
+      with (cs_loop (S f) (embed_stmt names 0 [] s :: embed_stmts names (0 + nd s) (next_scope 0 [] s) r)).
     unfold bind at 1. rewrite Hc. cbn [length app Nat.add].
-    unfold pcode. destruct (scode 0 0 (s :: r)) as [c ks]. cbn [fst snd].
+    unfold pcode. destruct (scode 0 [] 0 (s :: r)) as [c ks]. cbn [fst snd].
     unfold bind, cur, ret. cbn [mkst st_stack st_tabs mw w_id w_name w_consts w_names w_children].
     reflexivity.
   Qed.
